@@ -118,7 +118,7 @@ def _oracle_struct(bs, bidx, rng):
     if not np.array_equal(D, K):
         return 'asmatrix() of the compact data differs from numpy.kron of the level matrices'
     x = rng.integers(-3, 4, size=K.shape[1]).astype(float)
-    if K.shape[0] == K.shape[1] or L not in (2, 3):
+    if True:
         y = M._matvec(x) if L in (2, 3) else M.dot(x)
         if not np.array_equal(np.asarray(y).ravel(), K.dot(x)):
             return 'matvec differs from dense Kronecker product times x'
@@ -205,8 +205,8 @@ def run(ctx):
             trip = sorted(zip(Ac.row.tolist(), Ac.col.tolist(), Ac.data.tolist()))
             return plist(trip, lambda t: '%d,%d,%d' % (t[0], t[1], int(t[2])))
         add('asmat %s %s' % (sdesc, plist(X.ravel().astype(int).tolist())), f, ('asmat', bs, bidx, X.ravel().tolist()))
-        if L in (2, 3) and M == N or L not in (2, 3):
-            # (ml_matvec_2d/3d allocate y with len(x): only square shapes are well-defined there)
+        if True:
+            # rectangular shapes included (the len(x)-sized result of ml_matvec_2d/3d was repaired in /repo)
             x = rng.integers(-3, 4, size=N).astype(float)
             def f():
                 y = Mx._matvec(x)
@@ -358,6 +358,16 @@ def run(ctx):
                     K = reduce(np.kron, A)
                     if set(zip(IJ[0].tolist(), IJ[1].tolist())) != set(zip(*[x.tolist() for x in np.nonzero(K)])):
                         found = 'ml_nonzero_nd positions differ from the support of numpy.kron'
+            if m[0] == 'spars':
+                try:
+                    k1 = bspline.KnotVector(np.array(m[1]), m[2]); k2 = bspline.KnotVector(np.array(m[3]), m[4])
+                    b = mlmatrix.compute_sparsity_ij(k1, k2)
+                    want = [(i, j) for i in range(k2.numdofs) for j in range(k1.numdofs)
+                            if min(k2.kv[i + k2.p + 1], k1.kv[j + k1.p + 1]) > max(k2.kv[i], k1.kv[j])]
+                    if [tuple(x) for x in b.tolist()] != want:
+                        found = 'compute_sparsity_ij differs from the pairs of basis functions with overlapping support'
+                except Exception as ex:
+                    found = 'compute_sparsity_ij raised %s' % type(ex).__name__
             if m[0] == 'kronp':
                 try:
                     Ad = [np.array(a, dtype=float) for a in m[1]]
@@ -393,4 +403,4 @@ def run(ctx):
                           {'kv1': kv1.kv.tolist(), 'p1': kv1.p, 'kv2': kv2.kv.tolist(), 'p2': kv2.p}, True)
     ctx.extra['oracle_cross_checks'] = int(nor + len(kv_cases))
     ctx.assumptions += ['patterns contain in-range entries (the C code does no bounds checks)',
-                        'ml_matvec_2d/3d compared on square shapes only (they allocate y with len(x))']
+                        ]
